@@ -59,12 +59,12 @@ package metadata
 //@     p.TransactionNumber == op.TransactionNumber && p.ProtocolVersion == op.ProtocolVersion &&
 //@     p.CanonicalReference == op.CanonicalReference && p.EquivalentReferences == op.EquivalentReferences && p.AnchorOrigin == op.AnchorOrigin
 //
-// (The loop invariants below discharge all obligations but the preservation of [bound] / [order] within
-// the quick time-out -- those two need about a minute; the contract is therefore checked by the bounded
-// stand-in bounded/c18_published and is an ASSUMPTION for callers - labelled bounded, not proved.
-// Each clause names the loop invariants its proof needs: `uses [...]`.)
+// (The loop invariants below discharge every obligation; the slowest take about 6 s of the 10 s quick
+// time-out. To keep the quick tier far from its time-out the contract is an ASSUMPTION for callers there,
+// checked by the bounded stand-in bounded/c18_published - labelled bounded, not proved -, and it is proved in
+// the thorough tier (`trusted quick`). Each clause names the loop invariants its proof needs: `uses [...]`.)
 //@ func getPublishedOperations(ops) (ret)
-//@   trusted "bounded: checked by bounded/c18_published over all lists of up to 4 operations, not proved"
+//@   trusted quick "bounded in the quick tier: checked by bounded/c18_published over all lists of up to 4 operations; proved in the thorough tier"
 //@   requires forall i int :: 0 <= i && i < len(ops) ==> ops[i] != nil && allocated(ops[i])
 //@   modifies elems(ops)
 //@   ensures [subset] uses [subset, ops] forall j int :: 0 <= j && j < len(ret) ==> ret[j] != nil && (exists i int :: 0 <= i && i < len(ops) && samePublished(ret[j], ops[i]))
